@@ -588,6 +588,19 @@ func mutateJSON(js []byte, k int, seed uint64) []byte {
 	}
 	rng := simrt.NewRng(simrt.Derive(seed, uint64(k), 77))
 	out := append([]byte{}, js...)
+	if k >= 5 {
+		// structurally valid JSON that a nested any rejects: drop its "!type" member
+		if i := bytes.Index(out, []byte(`"!type":"`)); i >= 0 {
+			if j := bytes.IndexByte(out[i+9:], '"'); j >= 0 {
+				end := i + 9 + j + 1
+				if end < len(out) && out[end] == ',' {
+					end++
+				}
+				return append(out[:i:i], out[end:]...)
+			}
+		}
+		return append([]byte(`{"zzUnknownKey":1,`), out[1:]...)
+	}
 	switch k % 4 {
 	case 1: // truncate
 		return out[:rng.Intn(len(out))]
@@ -873,7 +886,7 @@ func genWorkload(seed uint64, deep bool) *Workload {
 			}
 		}
 		if (op.Kind == "decode" || op.Kind == "query" || op.Kind == "decode_any") && rng.Bool(0.2) {
-			op.Mutate = 1 + rng.Intn(4) // failing operation by construction
+			op.Mutate = 1 + rng.Intn(5) // failing operation by construction
 		}
 		if (op.Kind == "encode" || op.Kind == "encode_any" || op.Kind == "walk") && rng.Bool(0.12) {
 			op.Poison = 1 + rng.Intn(2) // failing encode: fails after part of the output was written
